@@ -272,3 +272,151 @@ def json_list(xs):
 
 
 MODULES["Parity"] = gen_parity
+
+
+# ------------------------------------------------------------------ Samplers (C11)
+ANGLE_CONSTS = {"TWOPI": "(1 : Rat)", "HALFPI": "((1 : Rat) / 4)", "np.pi": "((1 : Rat) / 2)"}
+
+
+class RatTr:
+    """Expressions of the plate-carree samplers, with angles measured in turns (TWOPI = 1)."""
+
+    def __init__(self):
+        self.ty = {}
+
+    def expr(self, e, want="Rat"):
+        src = ast.unparse(e)
+        if src in ANGLE_CONSTS:
+            return ANGLE_CONSTS[src], "Rat"
+        if isinstance(e, ast.Constant):
+            v = e.value
+            if isinstance(v, bool) or not isinstance(v, (int, float)):
+                raise ExtractError(f"constant {v!r}")
+            from fractions import Fraction
+            f = Fraction(v).limit_denominator(1 << 20)
+            if float(f) != float(v):
+                raise ExtractError(f"inexact constant {v!r}")
+            if isinstance(v, int):
+                return (f"({v} : Int)" if v >= 0 else f"(-{-v} : Int)"), "Int"
+            return f"(({f.numerator} : Rat) / {f.denominator})", "Rat"
+        if isinstance(e, ast.Name):
+            if e.id not in self.ty:
+                raise ExtractError(f"unknown name {e.id}")
+            return e.id, self.ty[e.id]
+        if isinstance(e, ast.UnaryOp) and isinstance(e.op, ast.USub):
+            a, t = self.expr(e.operand)
+            return f"(-{a})", t
+        if isinstance(e, ast.BinOp):
+            a, ta = self.expr(e.left)
+            b, tb = self.expr(e.right)
+            if isinstance(e.op, ast.Div) or "Rat" in (ta, tb):
+                a, b = self.cast(a, ta), self.cast(b, tb)
+                t = "Rat"
+            else:
+                t = "Int"
+            if isinstance(e.op, ast.Add):
+                return f"({a} + {b})", t
+            if isinstance(e.op, ast.Sub):
+                return f"({a} - {b})", t
+            if isinstance(e.op, ast.Mult):
+                return f"({a} * {b})", t
+            if isinstance(e.op, ast.Div):
+                return f"({a} / {b})", "Rat"
+            if isinstance(e.op, ast.Mod):
+                if t != "Rat":
+                    raise ExtractError("integer % in sampler")
+                return f"(ratMod {a} {b})", "Rat"
+            raise ExtractError("operator " + type(e.op).__name__)
+        if isinstance(e, ast.Call):
+            f = ast.unparse(e.func)
+            if f.endswith(".astype") and ast.unparse(e.args[0]) == "int" and isinstance(e.func.value, ast.Call) and ast.unparse(e.func.value.func) == "np.round":
+                a, t = self.expr(e.func.value.args[0])
+                return f"(roundHE {self.cast(a, t)})", "Int"
+            if f == "np.clip":
+                a, ta = self.expr(e.args[0])
+                lo, tl = self.expr(e.args[1])
+                hi, th = self.expr(e.args[2])
+                if (ta, tl, th) != ("Int", "Int", "Int"):
+                    raise ExtractError("clip on non-integers")
+                return f"(clipI {a} {lo} {hi})", "Int"
+        raise ExtractError("sampler expression " + src)
+
+    @staticmethod
+    def cast(a, t):
+        return a if t == "Rat" else f"(({a} : Int) : Rat)"
+
+
+SAMPLERS = [
+    ("sky", "plate_carree_sampler", False),
+    ("zeroright", "plate_carree_zeroright_sampler", False),
+    ("planet", "plate_carree_planet_sampler", False),
+    ("zeroleft", "plate_carree_planet_zeroleft_sampler", False),
+    ("galactic", "plate_carree_galactic_sampler", True),
+]
+
+
+def gen_samplers():
+    tree = parse("toasty/samplers.py")
+    out = HEADER.format(src="toasty/samplers.py") + (
+        "/-! Angles are measured in *turns*: the code's `TWOPI`, `np.pi`, `HALFPI` become 1, 1/2, 1/4.\n"
+        "Every expression below is homogeneous in the angle unit, so this is a change of units, not of meaning. -/\n\nnamespace Gen\nnamespace Sampler\n\n")
+    for short, fname, rotated in SAMPLERS:
+        fn = find_def(tree, fname)
+        tr = RatTr()
+        tr.ty = {"nx": "Int", "ny": "Int"}
+        lets = []
+        inner = None
+        for s in fn.body:
+            if isinstance(s, ast.Expr) and isinstance(s.value, ast.Constant):
+                continue
+            if isinstance(s, (ast.Import, ast.ImportFrom)):
+                continue
+            if isinstance(s, ast.Assign) and ast.unparse(s) in ("data = np.asarray(data)", "(ny, nx) = data.shape[:2]", "ny, nx = data.shape[:2]"):
+                continue
+            if isinstance(s, ast.Assign) and isinstance(s.targets[0], ast.Name):
+                v, t = tr.expr(s.value)
+                tr.ty[s.targets[0].id] = t
+                lets.append((s.targets[0].id, t, v))
+                continue
+            if isinstance(s, ast.FunctionDef):
+                inner = s
+                continue
+            if isinstance(s, ast.Return) and inner is not None and ast.unparse(s.value) == inner.name:
+                continue
+            raise ExtractError(f"{fname}: unexpected statement {ast.unparse(s)[:60]}")
+        if inner is None or [a.arg for a in inner.args.args] != ["lon", "lat"]:
+            raise ExtractError(f"{fname}: inner sampler function changed")
+        tr.ty["lon"] = "Rat"
+        tr.ty["lat"] = "Rat"
+        body = list(inner.body)
+        rot = False
+        if rotated:
+            a, b = ast.unparse(body[0]), ast.unparse(body[1])
+            if ("transform_to(Galactic)" not in a and "transform_to(Galactic())" not in a) or b not in ("(lon, lat) = (gal.l.rad, gal.b.rad)", "lon, lat = (gal.l.rad, gal.b.rad)"):
+                raise ExtractError(f"{fname}: rotation prologue changed: {a} / {b}")
+            body = body[2:]
+            rot = True
+        for s in body:
+            if isinstance(s, ast.Assign) and isinstance(s.targets[0], ast.Name):
+                v, t = tr.expr(s.value)
+                tr.ty[s.targets[0].id] = t
+                lets.append((s.targets[0].id, t, v))
+                continue
+            if isinstance(s, ast.Return):
+                if ast.unparse(s.value) != "data[iy, ix]":
+                    raise ExtractError(f"{fname}: returns {ast.unparse(s.value)}")
+                continue
+            raise ExtractError(f"{fname}: unexpected statement {ast.unparse(s)[:60]}")
+        if tr.ty.get("ix") != "Int" or tr.ty.get("iy") != "Int":
+            raise ExtractError(f"{fname}: indices are not rounded to integers")
+        text = f"/-- `{fname}`: `(iy, ix)` used to index the map" + (" (after the ICRS→Galactic rotation, which is applied to `lon`, `lat` first)" if rot else "") + " -/\n"
+        text += f"def {short} (nx ny : Int) (lon lat : Rat) : Int × Int :=\n"
+        for (n, t, v) in lets:
+            text += f"  let {n} : {t} := {v}\n"
+        text += "  (iy, ix)\n\n"
+        out += text
+    out += "end Sampler\nend Gen\n"
+    return out
+
+
+MODULES["Samplers"] = gen_samplers
